@@ -19,10 +19,13 @@ import numpy as np
 from vlib.core import PropertyCheck, TranslatorError
 from vlib import paths
 from props import _fresh
+from translate import devices as T_dev
 
 CTL = ("CNOT", "CSIGN")
 SWP = ("SWAP", "ISWAP", "SQRTISWAP", "SQRTSWAP", "BERKELEY", "SWAPalpha")
 HANDLED = CTL + SWP
+ORD = ("RZX",)          # ordered two-target gates: routed once fixes/C13-3.patch is in place (source_rz)
+MODEL_NAMES = HANDLED + ORD
 SYMMETRIC = SWP + ("CSIGN",)
 ALPHA = 0.3125          # arg_value used for SWAPalpha (dyadic)
 
@@ -90,7 +93,23 @@ def source_variant(repo=None):
     return found[0]
 
 
-_CC = {"v": None}
+_CC = {"v": None, "rz": None}
+
+
+def source_rz():
+    """does to_chain_structure route RZX (fixes/C13-3.patch)?  An unrecognised source is held to the repaired
+    reading."""
+    if _CC["rz"] is None:
+        try:
+            _CC["rz"] = bool(T_dev.route_rzx())
+        except TranslatorError:
+            _CC["rz"] = True
+    return _CC["rz"]
+
+
+def handled_names():
+    """the gate names the router of the tree rewrites"""
+    return HANDLED + ORD if source_rz() else HANDLED
 
 
 def variant_cc():
@@ -146,13 +165,13 @@ class Tags:
             m = g.name
             k = self._t(self.meas, (m.name, tuple(m.targets), m.classical_store), 0)
             return "m%d/%s/%s/0/0" % (k, ",".join(map(str, g.controls or [])), ",".join(map(str, g.targets or [])))
-        name = g.name if g.name in HANDLED else "o%d" % self._t(self.names, g.name, 0)
+        name = g.name if g.name in MODEL_NAMES else "o%d" % self._t(self.names, g.name, 0)
         av = g.arg_value
         akey = None if av is None else repr(tuple(av) if isinstance(av, (list, tuple, np.ndarray)) else av)
         a = self._t(self.args, akey, 0)
         cc = None if g.classical_controls is None else tuple(g.classical_controls)
         ekey = (cc, g.classical_control_value)
-        if g.name not in HANDLED:
+        if g.name not in MODEL_NAMES:
             ekey = ekey + (g.control_value,)
         if ekey in ((None, None), (None, None, None)):
             x = 0
@@ -185,8 +204,8 @@ def run_impl(qc, api, setup, w=None):
 
 def request(tags, w, variant=None):
     gs = ";".join(tags.gate(g) for g in w["_qc"].gates)
-    if variant is None and variant_cc():
-        variant = "11111"
+    if variant is None:
+        variant = "1111" + ("1" if variant_cc() else "0") + ("1" if source_rz() else "0")
     v = "" if variant is None else f" variant={variant}"
     if w["api"] == "chain":
         return f"route n={w['N']} setup={w['setup']}{v} gates={gs}"
@@ -233,7 +252,7 @@ def normal_form(N, gates):
 
 def conditioned_handled(w):
     """does the circuit contain a gate the router rewrites that carries a classical condition"""
-    return any("meas" not in g and g["name"] in HANDLED and g.get("cc") is not None for g in w["gates"])
+    return any("meas" not in g and g["name"] in handled_names() and g.get("cc") is not None for g in w["gates"])
 
 
 def propagators(qc, cbit_values):
@@ -271,17 +290,18 @@ def check_single(w, qc=None):
         qc, exc = build(w)
     if qc is None:
         return False, f"not constructible ({exc})", None
+    handled = handled_names() if api == "chain" else HANDLED
     for g in qc.gates:
         qs = qubits_of(g)
         if any(not (0 <= q < N) for q in qs) or len(set(qs)) != len(qs):
             return False, "outside the property's domain (qubit out of range or repeated)", qc
-        if not isinstance(g, Measurement) and g.name in HANDLED and (
+        if not isinstance(g, Measurement) and g.name in handled and (
                 len(qs) != 2 or len(g.targets) != (1 if g.name in CTL else 2)):
             return False, "outside the property's domain (malformed handled gate)", qc
     if setup not in ("linear", "circular"):
         return False, "outside the property's domain (setup)", qc
     st, r = run_impl(qc, api, setup if api == "chain" else None, w)
-    unhandled = [g for g in qc.gates if isinstance(g, Measurement) or g.name not in HANDLED]
+    unhandled = [g for g in qc.gates if isinstance(g, Measurement) or g.name not in handled]
     if api == "adjacent":
         setup = "linear"
         if unhandled:
@@ -292,7 +312,7 @@ def check_single(w, qc=None):
     # (i) indices, (ii) adjacency of every gate the router emitted
     passed = []
     for g in out:
-        if isinstance(g, Measurement) or isinstance(g.name, Measurement) or g.name not in HANDLED:
+        if isinstance(g, Measurement) or isinstance(g.name, Measurement) or g.name not in handled:
             passed.append(g)
             continue
         qs = qubits_of(g)
@@ -349,14 +369,14 @@ def single(N, setup, name, a, b, api="chain"):
     if name in CTL:
         g = gd(name, controls=[a], targets=[b])
     else:
-        g = gd(name, targets=[a, b], arg=ALPHA if name == "SWAPalpha" else None)
+        g = gd(name, targets=[a, b], arg=ALPHA if name in ("SWAPalpha", "RZX") else None)
     return {"N": N, "setup": setup, "api": api, "gates": [g]}
 
 
 def random_gate(rng, N, allow_meas=True, handled_only=False):
     r = rng.random()
     if N >= 2 and (handled_only or r < 0.6):
-        name = rng.choice(HANDLED)
+        name = rng.choice(HANDLED if handled_only else MODEL_NAMES)
         a, b = rng.sample(range(N), 2)
         return single(N, "", name, a, b)["gates"][0]
     kind = rng.choice(["RX", "SNOT", "CPHASE", "TOFFOLI", "FREDKIN", "GLOBALPHASE", "CX", "CZ", "cc", "meas", "RZ"])
@@ -443,7 +463,7 @@ def h2(name, a, b, alt=False):
     """the handled gate `name` on the ordered pair (a, b): control a / target b, resp. targets [a, b]"""
     if name in CTL:
         return gd(name, controls=[a], targets=[b])
-    return gd(name, targets=[a, b], arg=(ALPHA2 if alt else ALPHA) if name == "SWAPalpha" else None)
+    return gd(name, targets=[a, b], arg=(ALPHA2 if alt else ALPHA) if name in ("SWAPalpha", "RZX") else None)
 
 
 def systematic_multi(N, full=False):
@@ -478,6 +498,13 @@ def systematic_multi(N, full=False):
                 for n in swp3:
                     yield "exchange-before-controlled", [h2(n, a, b), h2(c, *o)]
                     yield "controlled-before-exchange", [h2(c, *o), h2(n, b, a)]
+        # the ordered two-target gate: both target orders, repeated, another angle, next to other gates of the pair
+        for o1 in ors:
+            o2 = (o1[1], o1[0])
+            yield "ordered-both-orders", [h2("RZX", *o1), h2("RZX", *o2)]
+            yield "ordered-repeat", [h2("RZX", *o1), h2("RZX", *o1, alt=True)]
+            yield "ordered+controlled", [h2("CNOT", *o1), h2("RZX", *o2), h2("CNOT", *o2)]
+            yield "ordered+exchange", [h2("ISWAP", a, b), h2("RZX", *o1), h2("SWAP", b, a)]
 
 
 def circ(N, setup, gates, api="chain", reuse=False):
@@ -505,6 +532,8 @@ def systematic_histories(N):
         two = [h2("CNOT", a, b), h2("ISWAP", b, a)]
         yield "same-object-twice", [circ(N, "circular", two), circ(N, "circular", two, reuse=True),
                                     circ(N, "linear", two)]
+        yield "ordered", [circ(N, "circular", [h2("RZX", a, b)]), circ(N, "circular", [h2("RZX", b, a)]),
+                          circ(N, "linear", [h2("RZX", b, a)]), circ(N, "ring", [h2("RZX", a, b)])]
         yield "names", [circ(N, "circular", [h2("CSIGN", a, b)]), circ(N, "circular", ab),
                         circ(N, "circular", [h2("SWAPalpha", a, b)]), circ(N, "circular", [h2("SWAPalpha", a, b, alt=True)])]
 
@@ -512,7 +541,7 @@ def systematic_histories(N):
 def conditioned_circuits(N):
     """(kind, gate list): handled gates carrying a classical condition, alone and fed by a measurement"""
     for a, b in itertools.permutations(range(N), 2):
-        for name in ("CNOT", "CSIGN", "SWAP", "ISWAP", "SWAPalpha"):
+        for name in ("CNOT", "CSIGN", "SWAP", "ISWAP", "SWAPalpha", "RZX"):
             g = dict(h2(name, a, b), cc=[1], ccv=1)
             yield "conditioned", [g]
         g2 = dict(h2("CNOT", a, b), cc=[0, 2], ccv=2)
@@ -543,7 +572,7 @@ class C07(PropertyCheck):
     lean_modules = ["QipVerif.Props.C07"]
     drivers = ["drv_route"]
     theorems = ["QipVerif.C07." + t for t in (
-        "route_in_range", "route_adjacent", "route_shape_ctl", "route_shape_swp", "route_other_setup", "route_passthrough",
+        "route_in_range", "route_adjacent", "route_shape_ctl", "route_shape_swp", "route_shape_ord", "route_other_setup", "route_passthrough",
         "route_concat", "route_append", "route_total", "circuit_passthrough_order", "circuit_in_range",
         "circuit_adjacent", "route_den_gate", "route_den", "route_den_cond", "condition_irrelevant_plain",
         "adjacent_gates_eq_linear",
@@ -567,7 +596,10 @@ class C07(PropertyCheck):
                   "matrix hypothesis). With fixes/C07-5 this holds for every classical state, conditioned gates included "
                   "(route_den_cond_C); without it a conditioned handled gate is re-emitted unconditionally "
                   "(C07_counterexample_condition_dropped, confirmed on the real code) and route_den_C excludes such "
-                  "gates. The code as found at the pinned commit violates the property in four more ways (counter-example "
+                  "gates. RZX (native to SCQubits) is routed once fixes/C13-3 is in place - the shape of the source is read "
+                  "too - with its two targets keeping their order (route_shape_ord; route_den_C with the matrix of the "
+                  "gate class cls_RZX; no symmetry hypothesis needed); before, it is passed through like any gate the router "
+                  "does not know. The code as found at the pinned commit violates the property in four more ways (counter-example "
                   "theorems, repaired by fixes/C07-1..4). The model is tied to the code by an exhaustive comparison of "
                   "gate lists for N <= 14 (quick) / 40 (thorough), systematic multi-gate circuits for every pair of every "
                   "register up to 9 (12) qubits, and histories of calls in one process.")
@@ -594,24 +626,28 @@ class C07(PropertyCheck):
 
     # ---------------------------------------------------------------------------------
     def regenerate(self, ctx):
-        _CC["v"] = None
+        _CC["v"] = _CC["rz"] = None
         try:
             _CC["v"] = bool(source_variant())
+            _CC["rz"] = bool(T_dev.route_rzx())
         except TranslatorError:
-            _CC["v"] = True                      # strict reading, see variant_cc
+            _CC["v"] = True if _CC["v"] is None else _CC["v"]      # strict reading, see variant_cc / source_rz
+            _CC["rz"] = True
             raise
+        ctx.log("source shape: RZX is %s (fixes/C13-3 %s)" % (("routed", "applied") if _CC["rz"] else
+                                                               ("passed through", "not applied")))
         ctx.log("source shape: the routed gate %s its classical condition (fixes/C07-5 %s)"
                 % (("keeps", "applied") if _CC["v"] else ("drops", "not applied")))
         return []
 
     # ---------------------------------------------------------------------------------
     def _diagnose(self, ctx, tags, w, impl):
-        for v in ["".join(b) for b in itertools.product("01", repeat=5)]:
-            if v in ("11110", "11111"):
+        for v in ["".join(b) for b in itertools.product("01", repeat=6)]:
+            if v.startswith("1111"):
                 continue
             if ctx.driver("drv_route").run([request(tags, w, v)])[0] == impl:
                 return (f"; the implementation behaves like model variant {v} (bits: C07-1 mod-N fix, C07-2 role fix, "
-                        "C07-3 arg_value fix, C07-4 measurement fix, C07-5 condition kept)")
+                        "C07-3 arg_value fix, C07-4 measurement fix, C07-5 condition kept, C13-3 RZX routed)")
         return ""
 
     def _compare(self, ctx, res, ws, tags_of, minimise=True):
@@ -701,7 +737,7 @@ class C07(PropertyCheck):
     @staticmethod
     def _far(w):
         for g in w["gates"]:
-            if "meas" not in g and g["name"] in HANDLED and not g.get("raw"):
+            if "meas" not in g and g["name"] in MODEL_NAMES and not g.get("raw"):
                 qs = (g["controls"] or []) + (g["targets"] or [])
                 if len(qs) == 2 and abs(qs[0] - qs[1]) > 1:
                     return True
@@ -725,18 +761,18 @@ class C07(PropertyCheck):
         maxN = 40 if ctx.thorough else 14
         for N in range(2, maxN + 1):
             ws = [single(N, setup, name, a, b)
-                  for setup in ("linear", "circular") for name in HANDLED
+                  for setup in ("linear", "circular") for name in MODEL_NAMES
                   for a, b in itertools.permutations(range(N), 2)]
             if N <= 10:
-                ws += [single(N, "linear", name, a, b, api="adjacent") for name in HANDLED
+                ws += [single(N, "linear", name, a, b, api="adjacent") for name in (MODEL_NAMES if N <= 5 else HANDLED)
                        for a, b in itertools.permutations(range(N), 2)]
             if N <= 8:
                 # any other setup string
-                ws += [single(N, "ring", name, a, b) for name in ("CNOT", "CSIGN", "ISWAP", "SWAPalpha")
+                ws += [single(N, "ring", name, a, b) for name in ("CNOT", "CSIGN", "ISWAP", "SWAPalpha", "RZX")
                        for a, b in itertools.permutations(range(N), 2)]
             self._compare(ctx, res, ws, self._tags_single)
         res.exhaustive = True
-        res.notes.append(f"exhaustive over all (N <= {maxN}, setup in linear/circular, gate in {'/'.join(HANDLED)}, "
+        res.notes.append(f"exhaustive over all (N <= {maxN}, setup in linear/circular, gate in {'/'.join(MODEL_NAMES)}, "
                          "ordered pair of distinct qubits) for to_chain_structure, N <= 10 for adjacent_gates, N <= 8 for "
                          "another setup string; gate lists compared exactly")
         # systematic multi-gate circuits: every pair of every register, both topologies
@@ -826,6 +862,7 @@ class C07(PropertyCheck):
                     yield circ(N, setup, [h2("CNOT", a, b), h2("CNOT", b, a)])
                     yield circ(N, setup, [h2("CNOT", b, a), dict(RX, targets=[a]), h2("CNOT", a, b)])
                     yield circ(N, setup, [h2("ISWAP", a, b), h2("CNOT", b, a), h2("SWAPalpha", b, a), h2("CNOT", a, b)])
+                    yield circ(N, setup, [h2("RZX", b, a), h2("CNOT", a, b), h2("RZX", a, b)])
         for N in range(3, hist_maxN + 1):
             for kind, h in systematic_histories(N):
                 if kind in ("orientations", "setups", "sizes", "names"):
@@ -845,7 +882,7 @@ class C07(PropertyCheck):
                 return reproducible(w, len(CALLS)), d
             return None
 
-        for w in itertools.chain(self._sweep_multi(8, 7), self._sweep(16, HANDLED)):
+        for w in itertools.chain(self._sweep_multi(8, 7), self._sweep(16, MODEL_NAMES)):
             if not self._in_theorem_class(w):
                 continue
             r = hit(w)
@@ -868,6 +905,7 @@ class C07(PropertyCheck):
             yield from self._sweep(11, ("CNOT",))
             yield from self._sweep(5, HANDLED)
             yield from self._sweep(9, ("SWAPalpha",))
+            yield from self._sweep(7, ORD)
             yield from self._sweep_multi(7, 5)
             for _ in range(150):
                 yield random_circuit(ctx.rng, maxN=9)
